@@ -8,10 +8,13 @@
    declared signature in number and kind; index and slice bounds lie in the configured range;
    no bracketed selection is empty.  C07_gate: a text that compiles has a compiled form with
    all of that - so a query breaking any of these rules is refused (there is no compiled object
-   to evaluate).  "Every valid RFC query, in any spelling, compiles" needs the printed text to
-   be parsed back: it is carried by the correspondence (every generated well-typed query in
-   random spellings compiles to the generated AST) and not proved here: partial. *)
-From JP Require Import Base Json Syntax Lex Parse Gate ParseProofs.
+   to evaluate).  The converse - everything the gate allows compiles - is proved for the canonical
+   spelling of the query (C07_accept_canonical, a corollary of the C10/C17 round trip: the gate,
+   with the shape invariants of the parser, is exactly what acceptance of the printed text needs);
+   "in any other spelling" (shorthand, blanks, aliases) is carried by the correspondence (every
+   generated well-typed query in random spellings compiles to the generated AST): partial. *)
+From JP Require Import Base Json Syntax Lex Parse Serialize TokPrint Printable Reparsable Gate NormDomain TokensOk
+                       ParseProofs RoundTrip.
 
 Theorem C07_gate :
   forall (E : env) re_ok (text : ustr) (q : query),
@@ -29,6 +32,19 @@ Theorem C07_gate_tokens :
     gate_query (e_min_index E) (e_max_index E) q = true.
 Proof. exact ParseProofs.gate_sound_tokens. Qed.
 Print Assumptions C07_gate_tokens.
+
+(* everything the gate allows is accepted, in its canonical spelling: a structure that passes the
+   gate (and has the shape and float form of something a parser builds) prints to a text that
+   compiles - to that structure in normal form - in every environment with admissible spellings *)
+Theorem C07_accept_canonical :
+  forall (E : env) re_ok (q : query) (t : ustr),
+    tokens_ok E = true -> e_well_typed E = true -> e_unicode_escape E = true ->
+    gate_query (e_min_index E) (e_max_index E) q = true ->
+    printable re_ok q = true -> reparsable E q = true -> floats_stable q = true ->
+    query_text E q = Ok t ->
+    compile E re_ok t = Ok (norm_query q).
+Proof. exact RoundTrip.accept_canonical. Qed.
+Print Assumptions C07_accept_canonical.
 
 (* concrete instances of every rejection the property names, and of acceptance (non-vacuity) *)
 Example C07_examples :
